@@ -1,8 +1,8 @@
 PROPERTY = "C01"
 LEVEL = "proof"
-# Props.C01: the property theorems; Model.Chars / Model.Lexer / Lemmas.LexerMask: the link theorems that tie the model to
+# Props.C01: the property theorems; Lemmas.CharsLink / Lemmas.LexerMask: the link theorems that tie the model to
 # the regenerated tables and constants (audited together so that a changed table shows up as a failed obligation)
-LEAN_MODULES = ["CifModel.Props.C01", "CifModel.Model.Chars", "CifModel.Model.Lexer", "CifModel.Lemmas.LexerMask"]
+LEAN_MODULES = ["CifModel.Props.C01", "CifModel.Lemmas.CharsLink", "CifModel.Lemmas.LexerMask"]
 REQUIRED = [
     "CifModel.C01_lex_value", "CifModel.C01_lex_value_loop", "CifModel.C01_lex_value_after_ws", "CifModel.C01_lex_key",
     "CifModel.C01_lex_sep", "CifModel.C08_ws_lengthening_lexical", "CifModel.C01_lex_total",
